@@ -46,7 +46,8 @@ def make_source(nd, rng=None):
     s.x = 1.0
     s.y = 2.0
     s.valid = np.array(flags, dtype=int)
-    s.flux = np.ones(len(flags))
+    # flag-4 points carry LOG10 fluxes, which are zero or negative for anything at or below 1 mJy: they count like any other
+    s.flux = np.array([(1.0 if f_ != 4 else [-1.5, 0.0][i % 2]) for i, f_ in enumerate(flags)])
     s.error = np.ones(len(flags)) * 0.1
     return s
 
